@@ -349,6 +349,9 @@ class HistogramBase(abc.ABC):
                         if np.any(array % 1.0):
                             raise ValueError("Data contain non-integer values.")
             for array in (self.frequencies, self.errors2):
+                if array.dtype.kind == "f" and np.issubdtype(value, np.integer):
+                    # In the array's own float type the integer limits may round (2**31 - 1 to 2**31)
+                    array = array.astype(np.longdouble)
                 if np.any((array > type_info.max) | (array < type_info.min)):
                     raise ValueError("Data contain values outside the specified range.")
 
